@@ -331,6 +331,22 @@ theorem options_visible_call (g mar : Bool) (opts : List Opt) (nn : Bool) (body 
   simp only [observe, he] at h
   exact options_visible g body hn s0 s' h k hk
 
+/-- `options_visible`, general form: ANY callee tree — nested MarshalEncode/UnmarshalDecode calls with options included,
+to any depth.  Every user call sees, for every option with a public setter, the options its innermost enclosing call
+started its body with (`root`: the effective options of that call; for user calls outside any such call, the struct
+the tree was started on). -/
+theorem options_visible_scoped (g : Bool) (a : Act) (s : Struct) (root seen : Struct)
+    (h : (root, seen) ∈ observeS g a s s) (k : Key) (hk : PlainKey k) : seen.getOption k = root.getOption k :=
+  getOption_sameOff (observeS_sameOff g a s s (SameOff.refl s) (root, seen) h) k hk
+
+/-- Not vacuous: user code that itself calls MarshalEncode with StringifyNumbers(true) on a value with a method: the
+inner user call sees StringifyNumbers set, the outer one does not; both see the coder's Deterministic(true). -/
+example :
+    let s := newCoder true [.bools (flagBit 19 ||| 1#64)]
+    let a : Act := .user (.call true [.bools (flagBit 18 ||| 1#64)] false (.user .skip))
+    (observeS false a s s).map (fun p => (p.2.getOption (.flag (flagBit 18)), p.2.getOption (.flag (flagBit 19)))) =
+      [((.bool false, false), (.bool true, true)), ((.bool true, true), (.bool true, true))] := by decide
+
 /-- `effective` is the struct the body runs on in c19's closed form of UnmarshalDecode (same for MarshalEncode with
 `call_marshal_closed`): the two descriptions of the scope agree. -/
 theorem effective_unmarshal (g : Bool) (opts : List Opt) (nn : Bool) (body : Act) (s s0 : Struct)
